@@ -2,6 +2,7 @@ package props
 
 import (
 	"fmt"
+	"go/constant"
 	"strings"
 
 	"golang.org/x/tools/go/ssa"
@@ -165,4 +166,37 @@ func runC17(c *Ctx) {
 		r.Add(core.Obligation{Rule: "update", Key: "update Host.Update" + f, Func: core.FuncName(fn), Pos: c.P.Pos(fn.Pos()), Status: st,
 			Basis: "host." + f + " = host." + f + ".Merge(name); MACEntry." + f + " merged only when the merge reported a change; row lock held", Detail: strings.Join(why, "; ")})
 	}
+	// names are cut with suffix/prefix functions, not with character sets: strings.Trim/TrimLeft/TrimRight take a *set*;
+	// a constant cutset that repeats a character was meant as a suffix or prefix (".local." strips any trailing l,o,c,a,.)
+	r.Rule("trim-cutset", "name extraction does not use a character-set trim with a suffix-like argument", 0)
+	nTrim := 0
+	for _, fn := range c.P.LibFunctions() {
+		for _, site := range callsIn(fn, nameIs("TrimRight", "TrimLeft", "Trim")) {
+			if !strings.HasPrefix(core.CalleeName(site), "strings.") || len(site.Common().Args) != 2 {
+				continue
+			}
+			k, ok := site.Common().Args[1].(*ssa.Const)
+			if !ok || k.Value == nil || k.Value.Kind() != constant.String {
+				continue
+			}
+			nTrim++
+			cut := constant.StringVal(k.Value)
+			seen := map[rune]bool{}
+			dup := false
+			for _, ch := range cut {
+				if seen[ch] {
+					dup = true
+				}
+				seen[ch] = true
+			}
+			st := core.Proved
+			if dup {
+				st = core.Violated
+			}
+			r.Add(core.Obligation{Rule: "trim-cutset", Key: fmt.Sprintf("trim-cutset %s %q in %s", core.CalleeName(site), cut, core.FuncName(fn)), Func: core.FuncName(fn), Pos: c.P.Pos(core.PosOf(site.(ssa.Instruction))), Status: st,
+				Basis: "cutset has no repeated character", Detail: fmt.Sprintf("%s(x, %q) removes every trailing/leading character of the set, not the suffix/prefix %q: names ending in those letters are shortened", core.CalleeName(site), cut, cut)})
+		}
+	}
+	r.Extra["trim_calls_with_constant_cutset"] = nTrim
+
 }
